@@ -26,6 +26,7 @@ def run(ctx: Ctx):
     SC.no_eos_mask_uses_its_own_extent(ctx, "S5")
     SC.empty_reference_convention(ctx, "S2")
     SC.tokens_compared_as_integers(ctx, "S5")
+    SC.kernel_value_table(ctx, "S6", "count")
     # ---- S4 minimum error rate loss ---------------------------------------------------------------------
     f = pkg.func("_string::minimum_error_rate_loss")
     where = f"{rel}::minimum_error_rate_loss"
